@@ -104,7 +104,7 @@ def run(ctx):
     ctx.require_events('Fitter.fit:post', 'interleave:previous-package', 'law-object:table-reassigned')
     ctx.require_regimes('limit:confidence=1', 'av_interior', 'av_clamped_lo', 'av_clamped_hi', 'lo_eq_hi', 'limit_violated',
                         'limit_satisfied', 'k0_band', 'style:v1', 'style:v2name', 'style:v2wav',
-                        'memmap_on', 'memmap_off')
+                        'memmap_on', 'memmap_off', 'source:integer-containers')
     n_pkg = 8 if ctx.quick else 150
     n_src = 30 if ctx.quick else 60
     for ip in range(n_pkg):
@@ -221,13 +221,23 @@ def run(ctx):
             err[one] = 1.0
             if one.any():
                 ctx.regime('limit:confidence=1')
+            # every fifth source gives whole numbers in integer containers (arrays, lists, tuples of ints): positive, finite, legal
+            ikind = None
+            if isrc % 5 == 3:
+                both = (isrc // 5) % 2 == 1
+                flux, err = gen.integerise(valid, flux, err, both=both)
+                ikind = (['i8', 'ilist', 'i4', 'ituple'][(isrc // 5) % 4], (['ilist', 'i8'][(isrc // 10) % 2] if both else 'list'))
             _, _, w = O.transform(valid, flux, err)
             fit = w > 0
             wk = np.sum(w[fit] * k[fit]) / np.sum(w[fit])
             cond = np.sum(w[fit] * (k[fit] - wk) ** 2) / np.sum(w[fit] * k[fit] ** 2)
             if not np.isfinite(cond) or cond < (1e-8 if ctx.quick else 1e-9):
                 continue
-            src = gen.build_source('s%d_%d' % (ip, isrc), valid, flux, err)
+            if ikind is None:
+                src = gen.build_source('s%d_%d' % (ip, isrc), valid, flux, err)
+            else:
+                src = gen.build_source_as('s%d_%d' % (ip, isrc), valid, flux, err, fkind=ikind[0], ekind=ikind[1], vkind='list')
+                ctx.regime('source:integer-containers')
             for ft, (lo, hi) in zip(fitters, ranges):
                 wit = dict(pinfo, memmap=memmap, valid=valid, flux=flux, error=err, av_range=(lo, hi),
                            law_wav=lw, law_chi=lc, band_wav=wav, planted=(m0, a0, s0), logm=logm)
